@@ -126,11 +126,12 @@ def show(seq):
 
 # -- engine ------------------------------------------------------------------------------------------------------------------
 class MemEngine:
-    def __init__(self, ctx, entry, module):
+    def __init__(self, ctx, entry, module, args=None):
         from .interp import ModuleInterp
         self.mi = ModuleInterp(ctx, max_steps=400000)
         self.entry = ctx.func(entry)
         self.env = self.mi.module_env(module)
+        self.args = args or (lambda work, location: (work, [], location))     # how the function under examination takes the sequence
 
     def run(self, seq, location):
         """None if the sequence is left alone; else {"rules": [...], "mismatch": None | {...}}."""
@@ -144,7 +145,8 @@ class MemEngine:
         self.env.update(extra_dep_info={}, debug=False, u_dict=u_dict, variable_content=dict(vc), gas_store_op=0, gas_memory_op=0, discount_op=0, rule_applied=False,
                         rules_applied=[], memory_opt=[False] * 3, storage_opt=[False] * 3, mem_delete_pos=[], sto_delete_pos=[], non_aliasing_disabled=False)
         try:
-            self.mi.call(self.entry, work, [], location)
+            self.env.update(memory_order=[], storage_order=[])
+            self.mi.call(self.entry, *self.args(work, location))
         except Raised as e:
             return {"rules": list(self.env["rules_applied"]), "mismatch": {"kind": "raises", "what": str(e)}}
         except Unsupported as e:
